@@ -1109,6 +1109,11 @@ def b5(repo: Repo) -> RuleResult:
                     ok = True
             if not ok:
                 res.bad(Finding("B5", PARSER, lp.lineno, "Parser._lookup_referenced_member", "", "the loop does not return the first scope's hit", tag="lookup-first"))
+            # nothing is returned around the loop except "not found"
+            for r in [n for n in ast.walk(fn) if isinstance(n, ast.Return)]:
+                inside = any(r is x for x in ast.walk(lp))
+                if not inside and r.value is not None and not (isinstance(r.value, ast.Constant) and r.value.value is None):
+                    res.bad(Finding("B5", PARSER, r.lineno, "Parser._lookup_referenced_member", src_of(r), "a definition is returned by a lookup outside the innermost-first scope walk: a file-level (or otherwise farther) definition can win over a nearer one that shadows it", witness="message A { message H { message X {} } message B { H.X f = 1 } }  next to a top-level message H { message X {} }", tag="lookup-shortcut"))
             # names = identifier.split(".")
             split_ok = any(isinstance(n, ast.Call) and isinstance(n.func, ast.Attribute) and n.func.attr == "split" and n.args and isinstance(n.args[0], ast.Constant) and n.args[0].value == "." for n in ast.walk(fn))
             if not split_ok:
@@ -1141,6 +1146,9 @@ def b5(repo: Repo) -> RuleResult:
             res.bad(Finding("B5", PARSER, fn.lineno, f"Parser.{aname}", "", "the reference is not looked up from its own identifier p[1] at the point of use", tag=f"{aname}:lookup"))
             continue
         var = calls[0].targets[0]
+        others = [n for n in ast.walk(fn) if isinstance(n, (ast.Assign, ast.AnnAssign, ast.NamedExpr)) and n is not calls[0] and any(src_of(t) == src_of(var) for t in (n.targets if isinstance(n, ast.Assign) else [n.target]))]
+        if others:
+            res.bad(Finding("B5", PARSER, others[0].lineno, f"Parser.{aname}", src_of(others[0]), f"`{src_of(var)}` also comes from `{src_of(others[0].value) if getattr(others[0], 'value', None) is not None else '?'}`: the reference is not (always) resolved by a fresh lookup at the point of use, so a definition declared in the meantime (shadowing) is missed", witness="message A { uint8 x = 1 ... } a scope that uses N (resolving outward), then declares its own N, then uses N again", tag=f"{aname}:second-source"))
         if not (len(stores) == 1 and src_of(stores[0].value) == src_of(var)):
             res.bad(Finding("B5", PARSER, fn.lineno, f"Parser.{aname}", "", "the value of the reference is not the definition that was looked up", tag=f"{aname}:value"))
 
